@@ -29,7 +29,7 @@ def run(chk, replay=None):
         "open() is observed by shadowing the builtin in the device module's namespace (nothing is really opened but /dev/null)",
     ]
     if replay is not None:
-        chk.only(replay, keys=("clause", "cfg", "dev", "rw", "module", "what"))
+        chk.only(replay, keys=("clause", "cfg", "via", "dev", "rw", "module", "what"))
     r = tlc.run("MC_Bindings", "MC_Bindings.cfg", workers=4, coverage=True, name="c19mc")
     if not r.ok:
         raise tlc.TLCFailure("Bindings.tla violated %s\n%s" % (r.violated, r.counterexample[:2000]))
@@ -39,23 +39,24 @@ def run(chk, replay=None):
         for isc in (False, True):
             events += worker(sg, isc)
     for e in events:
-        ev.case((e["ev"], str(e["cfg"]), str(e.get("dev", e.get("module", e.get("what")))), e.get("rw"), e.get("default_ini")))
+        ev.case((e["ev"], e.get("via"), str(e["cfg"]), str(e.get("dev", e.get("module", e.get("what")))), e.get("rw"), e.get("default_ini")))
     vs, st = tlc.judge_traces("Trace_Bindings", "Trace_Bindings.cfg", events, name="c19tr")
     ev.judged("Trace_Bindings", st, len(events))
     for i, clause, detail in vs:
         e = events[i]
         chk.violation({"clause": clause, "cls": "", "field": "", "cfg": e["cfg"],
-                       "dev": bytes(e["dev"]).decode() if "dev" in e else None, "rw": e.get("rw"),
+                       "dev": bytes(e["dev"]).decode() if "dev" in e else None, "rw": e.get("rw"), "via": e.get("via"),
                        "module": e.get("module"), "what": e.get("what"),
                        "detail": {"expected": detail, "event": {k: (bytes(v).decode("utf-8", "replace") if k in ("dev", "ini", "url", "ctx") else v)
                                                                 for k, v in e.items()}}},
-                      dedup=(clause, str(e["cfg"]), str(e.get("dev", e.get("module", e.get("what")))), e.get("rw")))
+                      dedup=(clause, e.get("via"), str(e["cfg"]), str(e.get("dev", e.get("module", e.get("what")))), e.get("rw")))
     ini = [e for e in events if e["ev"] == "init"]
     ev.sample({"event": {k: (bytes(v).decode() if k in ("dev", "ini", "url", "ctx") else v) for k, v in ini[9].items()}})
     ev.sample({"event": events[0]})
     ev.cov["exhaustive"] = True
-    ev.cov["rule"] = ("4 binding configurations x (every module under pyscsi imported, 4 codec/facade probes, 16 device "
-                      "strings x read-only/read-write x default/explicit initiator through init_device), one interpreter "
+    ev.cov["rule"] = ("4 binding configurations x (every module under pyscsi imported, 4 codec/facade probes, 23 device "
+                      "strings (+ a missing node where refusal is due) x read-only/read-write x default/explicit initiator "
+                      "through init_device and through SCSIDevice / ISCSIDevice directly, os.stat/os.open/open counted), one interpreter "
                       "per configuration; every event judged by Trace_Bindings against Bindings.tla (prefix rules, "
                       "refusal before any open/connect, exactly the requested path/mode/URL/initiator). distinct by "
                       "(kind, configuration, string/module, rw, initiator).")
